@@ -382,7 +382,7 @@ class Gen:
                 vars_.append(v)
             else:
                 lines.append(f"    {f[0]}({a})")
-        if not self.chain and r.random() < (0.2 if not getattr(self, "carried", False) else 0.7):
+        if not self.chain and r.random() < (0.04 if not getattr(self, "carried", False) else 0.7):
             # a local carried round a loop of this function that is only touched inside a nested block of the loop body,
             # followed (in the same body) by a statement that needs fresh temporaries
             self.features.add("carried-in-nested-block")
@@ -474,7 +474,12 @@ class Gen:
         r = self.r
         lines = ["from stationeers_pytrapic.symbols import *", "", "fur = Furnace(d2)", "sens = DaylightSensor(d3)", "heat = WallHeater(d1)"]
         nf = r.randrange(0, self.max_funcs + 1) if not self.calls_focus else r.randrange(2, self.max_funcs + 2)
-        names = r.sample(TRICKY_FUNC_NAMES if self.tricky_names else FUNC_NAMES, nf)
+        names = r.sample(FUNC_NAMES, nf)
+        if self.tricky_names:
+            # one pair of names that differ only where one has '_', sometimes a third function
+            k = 2 * r.randrange(len(TRICKY_FUNC_NAMES) // 2)
+            names = TRICKY_FUNC_NAMES[k: k + 2] + ([r.choice(FUNC_NAMES)] if r.random() < 0.3 else [])
+            r.shuffle(names)
         ng = r.randrange(0, 2)
         for _ in range(ng):
             g = self.fresh("g")
